@@ -200,15 +200,37 @@ func subCodec(out string, seed uint64, tier string, arg string) {
 		}
 		checkDecoded(rep, k.o, k.rs, k.b, " (decoded after all other result sets had been encoded)")
 	}
+	// the same through the encoder method itself, where the type has one (json.Marshal copies what a MarshalJSON
+	// method returns, so only a direct caller keeps the method's own slice)
+	for i := 0; i+1 < len(kept) && i < 40; i++ {
+		m1, ok1 := interface{}(kept[i].rs).(json.Marshaler)
+		m2, ok2 := interface{}(kept[i+1].rs).(json.Marshaler)
+		if !ok1 || !ok2 {
+			break
+		}
+		a, err := m1.MarshalJSON()
+		if err != nil {
+			rep.violate(Violation{"C14", "MarshalJSON of the result set of " + kept[i].o.Name + " fails: " + err.Error(), "marshal-method", replayOf(kept[i].o, nil)})
+			continue
+		}
+		snap := string(a)
+		m2.MarshalJSON()
+		rep.Evaluations++
+		if string(a) != snap {
+			rep.violate(Violation{"C14", "the bytes MarshalJSON returned for the result set of " + kept[i].o.Name + " changed when the next result set was encoded", "encoding-aliased", replayOf(kept[i].o, map[string]interface{}{"then": kept[i+1].o.Name})})
+			continue
+		}
+		checkDecoded(rep, kept[i].o, kept[i].rs, a, " (MarshalJSON called directly, decoded after the next encoding)")
+	}
 	// several goroutines encoding and decoding their own result sets at the same time
 	if len(kept) > 1 {
 		var wg sync.WaitGroup
 		var mu sync.Mutex
-		for w := 0; w < 8; w++ {
+		for w := 0; w < 96; w++ {
 			wg.Add(1)
 			go func(w int) {
 				defer wg.Done()
-				for it := 0; it < 40; it++ {
+				for it := 0; it < 12; it++ {
 					k := kept[(w*7+it)%len(kept)]
 					b, err := json.Marshal(k.rs)
 					if err != nil {
